@@ -22,26 +22,40 @@ const (
 // footprint lists the struct fields read (FieldAddr/Field) and the callees of fn.
 func footprint(fn *ssa.Function) (fields map[string]bool, callees map[string]bool, dynamic int) {
 	fields, callees = map[string]bool{}, map[string]bool{}
-	instrsOf(fn, func(in ssa.Instruction) {
-		switch x := in.(type) {
-		case *ssa.FieldAddr, *ssa.Field:
-			if n, ok := fieldName(x.(ssa.Value)); ok {
-				fields[n] = true
+	seen := map[*ssa.Function]bool{}
+	var visit func(f *ssa.Function)
+	visit = func(f *ssa.Function) {
+		seen[f] = true
+		instrsOf(f, func(in ssa.Instruction) {
+			switch x := in.(type) {
+			case *ssa.FieldAddr, *ssa.Field:
+				if n, ok := fieldName(x.(ssa.Value)); ok {
+					fields[n] = true
+				}
+			case ssa.CallInstruction:
+				// helpers of the same package are part of the function: their
+				// footprint is merged instead of being listed as a callee
+				if sf := x.Common().StaticCallee(); sf != nil && len(sf.Blocks) > 0 && sf.Pkg != nil && sf.Pkg == fn.Pkg {
+					if !seen[sf] {
+						visit(sf)
+					}
+					return
+				}
+				n := calleeName(x.Common())
+				if n == "" {
+					dynamic++
+				} else {
+					callees[n] = true
+				}
 			}
-		case ssa.CallInstruction:
-			n := calleeName(x.Common())
-			if n == "" {
-				dynamic++
-			} else {
-				callees[n] = true
+			if u, ok := in.(*ssa.UnOp); ok && u.Op == token.MUL {
+				if g, isG := u.X.(*ssa.Global); isG {
+					fields["global:"+g.String()] = true
+				}
 			}
-		}
-		if u, ok := in.(*ssa.UnOp); ok && u.Op == token.MUL {
-			if g, isG := u.X.(*ssa.Global); isG {
-				fields["global:"+g.String()] = true
-			}
-		}
-	})
+		})
+	}
+	visit(fn)
 	return
 }
 
@@ -211,8 +225,13 @@ func checkC22(c *Ctx, r *Report) {
 			}
 		}
 		for cn := range callees {
+			// package math is stateless: any of its functions keeps the score a pure
+			// function of (key, label, weight, configuration)
+			if strings.HasPrefix(cn, "math.") {
+				continue
+			}
 			switch cn {
-			case "encoding/hex.DecodeString", "math.NaN", "math.Log", "builtin.append", "(hash.Hash).Write", "(hash.Hash).Sum", "(io.Writer).Write":
+			case "encoding/hex.DecodeString", "builtin.append", "(hash.Hash).Write", "(hash.Hash).Sum", "(io.Writer).Write":
 			default:
 				extra = append(extra, "call "+cn)
 			}
